@@ -55,12 +55,13 @@ def run_obligations(ctx, prop, info, gen, timeout=600):
     return out
 
 
-def settle(ctx, prop, results, search_hits):
+def settle(ctx, prop, results, search_hits, merge=False, key=None):
     """Compare per-protocol proof outcomes with the committed expectation.
     search_hits: {name: True} for protocols on which the search oracle found a (known or new) concrete violation.
     Returns summary dict; reports violations for regressions."""
     exp = expected_status(prop)
     write = os.environ.get('VERIF_WRITE_STATUS')
+    key = key or prop
     new_status = {}
     summary = dict(proved=[], failed_expected=[], unmodelled=[], regressions=[], improvements=[])
     for name, r in sorted(results.items()):
@@ -95,10 +96,19 @@ def settle(ctx, prop, results, search_hits):
                 summary['failed_expected'].append(name)
     if write:
         allst = vlib.load_json(vlib.STATUS_FILE, {})
+        if merge:
+            # a family whose members are attempted per tier (exhaustive proofs: larger spaces only in the thorough tier): the run
+            # updates the entries it attempted and keeps the others
+            new_status = dict(allst.get(prop, {}), **new_status)
         allst[prop] = new_status
         with open(vlib.STATUS_FILE, 'w') as fh:
             json.dump(allst, fh, indent=1, sort_keys=True)
         ctx.note('proof_status.json rewritten for ' + prop)
+    if key != prop or merge:
+        ctx.extra[prop + '_proved_protocols'] = summary['proved']
+        ctx.extra[prop + '_inconclusive_protocols'] = summary['failed_expected']
+        ctx.extra[prop + '_regressions'] = summary['regressions']
+        return summary
     ctx.extra['proved_protocols'] = summary['proved']
     ctx.extra['inconclusive_protocols'] = summary['failed_expected']
     ctx.extra['unmodelled_protocols'] = {n: results[n]['detail'] for n in summary['unmodelled']}
